@@ -36,61 +36,76 @@ CONSTANT Cap
 
 TLog == ndJsonDeserialize("trace.ndjson")
 
-VARIABLES l, T, ph, stream, consumed, pend, must
-tvars == <<l, T, ph, stream, consumed, pend, must>>
+\* lo..hi: the positions in the stream up to which the server may have read.  The log gives the text of a Read, not
+\* its length: the candidates differ in trailing white space only (stream[lo+1..hi] is white space), nothing else in
+\* the state depends on the choice, so the set of candidates is carried along instead of branching.
+VARIABLES l, T, ph, stream, lo, hi, pend, must
+tvars == <<l, T, ph, stream, lo, hi, pend, must>>
 
 ASSUME TLCSet(1, 0)
 
 Ev == TLog[l]
 Is(x) == l <= Len(TLog) /\ Ev.ev = x /\ l' = l + 1
 
-TInit == l = 1 /\ T = EmptyTable /\ ph = "closed" /\ stream = "" /\ consumed = 0 /\ pend = <<>> /\ must = FALSE
+TInit == l = 1 /\ T = EmptyTable /\ ph = "closed" /\ stream = "" /\ lo = 0 /\ hi = 0 /\ pend = <<>> /\ must = FALSE
 
-THist == /\ Is("hist") /\ T' = Ev.T /\ ph' = "closed" /\ stream' = "" /\ consumed' = 0 /\ pend' = <<>> /\ must' = FALSE
-TConn == /\ Is("conn") /\ ph = "closed" /\ ph' = "connected" /\ stream' = "" /\ consumed' = 0 /\ pend' = <<>> /\ must' = FALSE
+THist == /\ Is("hist") /\ T' = Ev.T /\ ph' = "closed" /\ stream' = "" /\ lo' = 0 /\ hi' = 0 /\ pend' = <<>> /\ must' = FALSE
+TConn == /\ Is("conn") /\ ph = "closed" /\ ph' = "connected" /\ stream' = "" /\ lo' = 0 /\ hi' = 0 /\ pend' = <<>> /\ must' = FALSE
          /\ UNCHANGED T
 \* T3
 TBanner == /\ Is("banner") /\ pend = <<>> /\ ph \in {"connected", "replying"} /\ ph' = "idle"
-           /\ UNCHANGED <<T, stream, consumed, pend, must>>
-TSend == /\ Is("send") /\ ph \in {"idle", "replying"}
+           /\ UNCHANGED <<T, stream, lo, hi, pend, must>>
+TSend == /\ Is("send") /\ ph = "idle"
          /\ stream' = stream \o Ev.data
-         /\ must' = (Ev.solo /\ ph = "idle" /\ consumed = Len(stream) /\ Len(Ev.data) <= Cap)
-         /\ UNCHANGED <<T, ph, consumed, pend>>
-\* T1: the pieces of the unread stream whose trimmed text is the logged text (they differ in trailing white space)
-Pieces(text) ==
-    LET s0 == SkipWs(stream, consumed + 1) IN
-    IF text = "" THEN {n \in 1..Min2(Cap, s0 - 1 - consumed) : TRUE}
-    ELSE IF ~PrefixAt(stream, s0, text) THEN {}
-    ELSE LET e  == s0 + Len(text) - 1
-             e2 == SkipWs(stream, e + 1) - 1
-         IN  {n \in (e - consumed)..(e2 - consumed) : n <= Cap}
+         /\ must' = (Ev.solo /\ lo = Len(stream) /\ hi = lo /\ Len(Ev.data) <= Cap)
+         /\ UNCHANGED <<T, ph, lo, hi, pend>>
+\* T1: a Read that began at a position c in lo..hi and returned n <= Cap bytes whose trimmed text is the logged text
+\* ended at c + n in NextLo..NextHi:
+\*   text = ""   only white space: c + 1 .. the last white-space byte before the next text, at most Cap further
+\*   otherwise   the text stands right after the white space (at s0), ends at e, and the Read ended at e or in the
+\*               white space that follows it (up to e2), at most Cap bytes after where it began
+S0 == SkipWs(stream, hi + 1)
+TextHere(text) == text = "" \/ PrefixAt(stream, S0, text)
+NextLo(text) == IF text = "" THEN lo + 1 ELSE S0 + Len(text) - 1
+NextHi(text) == IF text = "" THEN Min2(S0 - 1, hi + Cap)
+                ELSE Min2(SkipWs(stream, S0 + Len(text)) - 1, hi + Cap)
 \* T1, T2
 TRead == /\ Is("read") /\ ph = "idle"
-         /\ \E n \in Pieces(Ev.text) :
-               /\ (must => n = Len(stream) - consumed)
-               /\ consumed' = consumed + n
+         /\ TextHere(Ev.text)
+         /\ IF must THEN NextLo(Ev.text) <= Len(stream) /\ Len(stream) <= NextHi(Ev.text) /\ lo' = Len(stream) /\ hi' = Len(stream)
+                    ELSE NextLo(Ev.text) <= NextHi(Ev.text) /\ lo' = NextLo(Ev.text) /\ hi' = NextHi(Ev.text)
          /\ LET r == ExecRead(RealMux, T, Ev.text) IN
             /\ r.md
             /\ T' = r.T /\ pend' = r.rep
          /\ ph' = "replying" /\ must' = FALSE
          /\ UNCHANGED stream
 TReply == /\ Is("reply") /\ ph = "replying" /\ pend # <<>> /\ Ev.cls = Head(pend) /\ pend' = Tail(pend)
-          /\ UNCHANGED <<T, ph, stream, consumed, must>>
+          /\ UNCHANGED <<T, ph, stream, lo, hi, must>>
 \* T4
 TSnap == /\ Is("snap") /\ ph \in {"idle", "closed"} /\ Ev.T = T
-         /\ UNCHANGED <<T, ph, stream, consumed, pend, must>>
+         /\ UNCHANGED <<T, ph, stream, lo, hi, pend, must>>
 \* T5
-TClose == /\ Is("close") /\ ph = "idle" /\ SkipWs(stream, consumed + 1) > Len(stream)
+TClose == /\ Is("close") /\ ph = "idle" /\ SkipWs(stream, hi + 1) > Len(stream)
           /\ ph' = "closed"
-          /\ UNCHANGED <<T, stream, consumed, pend, must>>
-\* T6
+          /\ UNCHANGED <<T, stream, lo, hi, pend, must>>
+\* T6.  The HTTP API is not documented; three things the code does are accidents rather than intentions (AdminConn.tla,
+\* W_NotFoundNoResponse, W_NegativeNoResponse, W_NonNumericDeletesFirst).  For exactly these requests a repaired
+\* relay -- one that refuses the request with a 4xx response and leaves the table alone -- is accepted as well.
 RKeys(Tb) == [i \in 1..Len(Tb.rt) |-> Tb.rt[i].key]
+TargetList(q) == CASE q.kind = "blacklists" -> T.bl [] q.kind = "rewriters" -> T.rw [] q.kind = "aggregators" -> T.agg
+                   [] q.kind = "dests" -> (IF RouteIdx(T, q.key) = 0 THEN <<>> ELSE T.rt[RouteIdx(T, q.key)].dests)
+                   [] OTHER -> <<>>
+Refusable(q) == \/ /\ q.m = "DELETE" /\ q.kind \in {"blacklists", "rewriters", "aggregators", "dests"} /\ q.idx # ""
+                   /\ (AtoiErr(q.idx) \/ AtoiVal(q.idx) < 0 \/ AtoiVal(q.idx) >= Len(TargetList(q)))
+                \/ q.m = "DELETE" /\ q.kind = "dests" /\ RouteIdx(T, q.key) = 0
+                \/ q.m = "GET" /\ q.kind = "routes" /\ q.key # "" /\ RouteIdx(T, q.key) = 0
 THttp == /\ Is("http") /\ ph \in {"idle", "closed"}
          /\ LET r == HttpExec(T, Ev.q) IN
-            /\ Ev.st = r.st
-            /\ T' = r.T
-            /\ (Ev.q.m = "GET" /\ Ev.q.kind = "routes" /\ Ev.q.key = "" => Ev.keys = RKeys(T))
-         /\ UNCHANGED <<ph, stream, consumed, pend, must>>
+            \/ /\ Ev.st = r.st
+               /\ T' = r.T
+               /\ (Ev.q.m = "GET" /\ Ev.q.kind = "routes" /\ Ev.q.key = "" => Ev.keys = RKeys(T))
+            \/ /\ Refusable(Ev.q) /\ Ev.st \in 400..499 /\ T' = T
+         /\ UNCHANGED <<ph, stream, lo, hi, pend, must>>
 
 TNext == THist \/ TConn \/ TBanner \/ TSend \/ TRead \/ TReply \/ TSnap \/ TClose \/ THttp
 TSpec == TInit /\ [][TNext]_tvars
